@@ -132,6 +132,7 @@ pub fn dispatch(p: &[String]) -> String {
                 _ => "{\"error\": \"unknown opcode\"}".to_string(),
             }
         }
+        "typed_request_at_limit" => generated::typed_request_at_limit(&p[1], p[2].parse::<u64>().unwrap_or(0) as u32),
         "typed_request" => generated::typed_request(&p[1], p[2].parse::<u64>().unwrap_or(0) as u32, p.len() > 3 && p[3] == "empty"),
         "builder_set_version" => {
             // builder_set_version <0|1>: set_version(1,5) on a fresh builder, or after an earlier set_version(1,0) + new_from_module
@@ -240,6 +241,24 @@ pub fn dispatch(p: &[String]) -> String {
                 Err(e) => jstr(&format!("{:?}", e)),
             };
             format!("{{\"events\": [{}], \"result\": {}, \"own_error\": {}}}", c.log.iter().map(|x| jstr(x)).collect::<Vec<_>>().join(", "), res, own)
+        }
+        "wrappers_vs_parser" => {
+            // wrappers_vs_parser <hex bytes>: parse_bytes / parse_words (when the length is a multiple of 4) against Parser::new(..).parse()
+            let bytes = unhex(if p.len() > 1 { &p[1] } else { "" });
+            fn run(f: &dyn Fn(&mut crate::consumer::Scripted) -> rspirv::binary::ParseResult<()>) -> String {
+                let mut c = crate::consumer::Scripted::new(vec![]);
+                let r = f(&mut c);
+                format!("{:?} / {}", r.map_err(|e| format!("{:?}", e)), c.log.join(" | "))
+            }
+            let direct = run(&|c| rspirv::binary::Parser::new(&bytes, c).parse());
+            let via_bytes = run(&|c| rspirv::binary::parse_bytes(&bytes, c));
+            let mut via_words = "null".to_string();
+            if bytes.len() % 4 == 0 {
+                let words: Vec<u32> = bytes.chunks(4).map(|c| u32::from_le_bytes([c[0], c[1], c[2], c[3]])).collect();
+                let w = run(&|c| rspirv::binary::parse_words(&words, c));
+                via_words = jstr(&w);
+            }
+            format!("{{\"direct\": {}, \"parse_bytes\": {}, \"parse_words\": {}}}", jstr(&direct), jstr(&via_bytes), via_words)
         }
         "loader_step" => crate::sweep::loader_step_closed(p[1] == "1", p[2] == "1", p[3].parse::<u32>().unwrap(), p.len() > 4 && p[4] == "closed"),
         "loader_finalize" => crate::sweep::loader_finalize(p[1] == "1", p[2] == "1"),
